@@ -282,17 +282,35 @@ impl From<Si> for RealE {
     }
 }
 
-/// Per-record output value whose creations (`Default::default()`, the only way the simple per-record functions can
-/// make one) are counted per OS thread; under the schedule tier all tasks of an execution run on one OS thread.
+/// Per-record output value whose creations and drops are counted per OS thread (under the schedule tier all tasks of an
+/// execution run on one OS thread): the number of values ALIVE at the same time is what "memory use independent of
+/// the input size" bounds; how often values are created is not promised by C16.
 #[derive(Debug)]
 pub struct Cnt(pub u64);
 thread_local! {
     static CREATED: std::cell::Cell<usize> = const { std::cell::Cell::new(0) };
+    static LIVE: std::cell::Cell<usize> = const { std::cell::Cell::new(0) };
+    static MAX_LIVE: std::cell::Cell<usize> = const { std::cell::Cell::new(0) };
+}
+impl Cnt {
+    pub fn new() -> Cnt {
+        CREATED.with(|c| c.set(c.get() + 1));
+        let l = LIVE.with(|c| {
+            c.set(c.get() + 1);
+            c.get()
+        });
+        MAX_LIVE.with(|c| c.set(c.get().max(l)));
+        Cnt(0)
+    }
 }
 impl Default for Cnt {
     fn default() -> Cnt {
-        CREATED.with(|c| c.set(c.get() + 1));
-        Cnt(0)
+        Cnt::new()
+    }
+}
+impl Drop for Cnt {
+    fn drop(&mut self) {
+        let _ = LIVE.try_with(|c| c.set(c.get().saturating_sub(1)));
     }
 }
 
@@ -308,6 +326,8 @@ pub struct RealObs {
     pub data_inits: usize,
     /// api 0 / 3: number of per-record output values created through Default (schedule tier only)
     pub outputs_created: usize,
+    /// largest number of per-record output values alive at the same time (schedule tier only)
+    pub outputs_max_live: usize,
     pub data_init_failed: bool,
     pub rset_inits: usize,
     pub rset_init_failed: Option<usize>,
@@ -376,7 +396,7 @@ macro_rules! per_record_apis {
             let fault = c.fault(doc.len());
             let di_fail = c.data_init_fail_at.map(|j| j as usize);
             let si_fail = c.rset_init_fail_at.map(|j| j as usize);
-            $init::<_, RealE, _, Ri, _, u64, Di, _, usize, Si, _, _, ()>(
+            $init::<_, RealE, _, Ri, _, Cnt, Di, _, usize, Si, _, _, ()>(
                 c.n_threads,
                 c.queue_len,
                 move || {
@@ -397,7 +417,8 @@ macro_rules! per_record_apis {
                         g.data_init_failed = true;
                         return Err(Di(call));
                     }
-                    Ok(0u64)
+                    drop(g);
+                    Ok(Cnt::new())
                 },
                 move || {
                     late(&o_s, "rset_data_init");
@@ -410,8 +431,8 @@ macro_rules! per_record_apis {
                     }
                     Ok(call)
                 },
-                move |rec: $rec, d: &mut u64, _s: &mut usize| work(rec, d),
-                move |rec: $rec, d: &mut u64, _s: &mut usize| func(rec, d),
+                move |rec: $rec, d: &mut Cnt, _s: &mut usize| work(rec, &mut d.0),
+                move |rec: $rec, d: &mut Cnt, _s: &mut usize| func(rec, &mut d.0),
             )
             .map(|o| o.is_some())
         };
@@ -466,6 +487,8 @@ pub fn sequential_batches(c: &RealCfg) -> (Vec<(usize, usize)>, usize) {
 pub fn execute_real(c: &RealCfg, obs: &SharedReal) {
     PROGRESS.with(|p| *p.borrow_mut() = Default::default());
     CREATED.with(|k| k.set(0));
+    LIVE.with(|k| k.set(0));
+    MAX_LIVE.with(|k| k.set(0));
     let doc = document(c);
     let res: Result<bool, RealE> = if c.api == 3 {
         // the generic per-record function over any parallel::Reader whose data set iterates over records
@@ -668,6 +691,7 @@ pub fn execute_real(c: &RealCfg, obs: &SharedReal) {
     g.result = Some(res);
     g.returned = true;
     g.outputs_created = CREATED.with(|k| k.get());
+    g.outputs_max_live = MAX_LIVE.with(|k| k.get());
 }
 
 /// C16 for the convenience wrappers too (read_parallel, parallel_fasta/fastq, parallel_records take the queue length
@@ -769,25 +793,17 @@ pub fn check_real(c: &RealCfg, o: &RealObs) -> CheckResult {
     // number of data sets, and of per-record output values (each data set recycles its vector of outputs)
     if c.api == 1 {
         ensure!(o.rset_inits <= c.queue_len + 1, format!("real/{}/too-many-data-sets", f), "{} record sets were created, queue_len + 1 = {}", o.rset_inits, c.queue_len + 1);
-        let m = max_batch(c);
-        ensure!(
-            o.data_inits <= (c.queue_len + 1) * m + 1,
-            format!("real/{}/per-record-outputs-not-recycled", f),
-            "record_data_init was called {} times for {} records; with {} data sets and at most {} records per set it is needed at most {} times",
-            o.data_inits,
-            n,
-            c.queue_len + 1,
-            m,
-            (c.queue_len + 1) * m
-        );
     }
-    if (c.api == 0 || c.api == 3) && crate::sys::SINGLE_OS_THREAD {
-        // the simple per-record functions create the outputs through Default: each data set recycles its vector
+    if c.api != 2 && crate::sys::SINGLE_OS_THREAD {
+        // memory held in per-record outputs: every data set keeps one vector of them, as long as its largest batch so
+        // far. How often outputs are created (record_data_init / Default) is NOT promised: a set may release surplus
+        // outputs and create them again later; what must not happen is that their number grows with the input.
         let m = max_batch(c);
         ensure!(
-            o.outputs_created <= (c.queue_len + 1) * m + 1,
-            format!("real/{}/per-record-outputs-not-recycled", f),
-            "{} per-record output values were created (Default::default()) for {} records; with {} data sets and at most {} records per set at most {} are needed",
+            o.outputs_max_live <= (c.queue_len + 1) * m + 1,
+            format!("real/{}/per-record-outputs-accumulate", f),
+            "{} per-record output values were alive at the same time ({} created for {} records); with {} data sets and at most {} records per set at most {} can be in use",
+            o.outputs_max_live,
             o.outputs_created,
             n,
             c.queue_len + 1,
